@@ -662,7 +662,7 @@ func (g *eng) randIP() netip.Addr {
 		var b [16]byte
 		copy(b[:], r.Bytes(16))
 		b[0], b[1] = 0xfe, 0x80
-		return netip.AddrFrom16(b).WithZone([]string{"eth0", "1", "en0", "wlan_0"}[r.Intn(4)])
+		return netip.AddrFrom16(b).WithZone([]string{"eth0", "1", "en0", "wlan_0", "a,b", "x,"}[r.Intn(6)])
 	}
 }
 
